@@ -1,3 +1,4 @@
+#![recursion_limit = "512"]
 //! Driver of the deterministic simulation for property C19 (DESIGN.md section 3).
 //!
 //! `driver run`      plan worlds from VERIF_SEED, execute every host, check the oracle,
@@ -100,6 +101,8 @@ struct Stats {
     getpid_calls: u64,
     getpid_in_expansion: u64,
     disk_writes_in_expansion: u64,
+    concurrent_pairs: u64,
+    scheduler_switches: u64,
     env_names_in_expansion: BTreeSet<String>,
     fs_calls_in_expansion: u64,
     fs_names_in_expansion: BTreeSet<String>,
@@ -155,6 +158,8 @@ impl Stats {
         self.getpid_calls += o.getpid_calls;
         self.getpid_in_expansion += o.getpid_in_expansion;
         self.disk_writes_in_expansion += o.disk_writes_in_expansion;
+        self.concurrent_pairs += o.concurrent_pairs;
+        self.scheduler_switches += o.scheduler_switches;
         self.env_names_in_expansion.extend(o.env_names_in_expansion);
         self.fs_calls_in_expansion += o.fs_calls_in_expansion;
         self.fs_names_in_expansion.extend(o.fs_names_in_expansion);
@@ -280,6 +285,7 @@ fn events_hash(ev: &[Event]) -> u64 {
             Event::Spawn { tid } => s.push_str(&format!("T{};", tid)),
             Event::Expand { tid, input } => s.push_str(&format!("E{},{};", tid, input)),
             Event::ExpandTokens { tid, input } => s.push_str(&format!("Et{},{};", tid, input)),
+            Event::ExpandPair { a_tid, a_input, b_tid, b_input, sched } => s.push_str(&format!("X{},{},{},{},{};", a_tid, a_input, b_tid, b_input, sched)),
             Event::Perturb { tid, n, seed } => s.push_str(&format!("P{},{},{};", tid, n, seed)),
             Event::Order { tid, policy, seed } => s.push_str(&format!("O{},{},{};", tid, policy, seed)),
             Event::OrderAt { tid, policy, seed, site } => s.push_str(&format!("O{},{},{},{};", tid, policy, seed, site)),
@@ -297,6 +303,7 @@ fn host_summary(h: &HostCfg) -> Value {
             Event::Spawn { tid } => format!("spawn(t{})", tid),
             Event::Expand { tid, input } => format!("expand(t{},i{})", tid, input),
             Event::ExpandTokens { tid, input } => format!("expand_token_built(t{},i{})", tid, input),
+            Event::ExpandPair { a_tid, a_input, b_tid, b_input, .. } => format!("concurrently(t{}:i{} || t{}:i{})", a_tid, a_input, b_tid, b_input),
             Event::Perturb { tid, n, .. } => format!("perturb(t{},{})", tid, n),
             Event::Order { tid, policy, seed } => format!("order(t{},p{},s{})", tid, policy, seed),
             Event::OrderAt { tid, policy, site, .. } => format!("order(t{},p{},at {})", tid, policy, site),
@@ -395,6 +402,8 @@ fn run_planned_world(env: &Env, idx: usize, ws: u64, w: World, want_sample: bool
         st.getpid_calls += log.counters[7];
         st.getpid_in_expansion += log.counters[8];
         st.disk_writes_in_expansion += log.counters[9];
+        st.concurrent_pairs += log.pairs;
+        st.scheduler_switches += log.switches;
         for n in log.env_names.split(';').filter(|x| !x.is_empty()) {
             env_names.insert(n.to_string());
         }
@@ -424,6 +433,12 @@ fn run_planned_world(env: &Env, idx: usize, ws: u64, w: World, want_sample: bool
         }
         if h.events.iter().any(|e| matches!(e, Event::Spawn { .. })) {
             fired |= F_THREAD
+        }
+        if hi > 0 && h.events.iter().any(|e| matches!(e, Event::ExpandPair { .. })) {
+            fired |= plan::F_CONCURRENT
+        }
+        if hi > 0 && h.events.iter().any(|e| matches!(e, Event::ExpandTokens { .. })) {
+            fired |= plan::F_SPANS
         }
         if hi > 0 && h.events.iter().filter(|e| matches!(e, Event::Expand { .. })).map(|e| if let Event::Expand { input, .. } = e { *input } else { 0 }).collect::<Vec<_>>() != w.hosts[0].events.iter().filter_map(|e| if let Event::Expand { input, .. } = e { Some(*input) } else { None }).collect::<Vec<_>>() {
             fired |= F_HISTORY
@@ -586,6 +601,7 @@ fn hostcfg_to_json(h: &HostCfg) -> Value {
             Event::Spawn { tid } => json!({"op": "spawn", "tid": tid}),
             Event::Expand { tid, input } => json!({"op": "expand", "tid": tid, "input": input}),
             Event::ExpandTokens { tid, input } => json!({"op": "expand_token_built", "tid": tid, "input": input}),
+            Event::ExpandPair { a_tid, a_input, b_tid, b_input, sched } => json!({"op": "expand_pair", "tid": a_tid, "input": a_input, "b_tid": b_tid, "b_input": b_input, "sched": sched.to_string()}),
             Event::Perturb { tid, n, seed } => json!({"op": "perturb", "tid": tid, "n": n, "seed": seed.to_string()}),
             Event::Order { tid, policy, seed } => json!({"op": "order", "tid": tid, "policy": policy, "seed": seed.to_string()}),
             Event::OrderAt { tid, policy, seed, site } => json!({"op": "order_at", "tid": tid, "policy": policy, "seed": seed.to_string(), "site": site}),
@@ -633,6 +649,7 @@ fn hostcfg_from_json(v: &Value) -> Option<HostCfg> {
             "spawn" => Event::Spawn { tid },
             "expand" => Event::Expand { tid, input: e["input"].as_u64()? as u32 },
             "expand_token_built" => Event::ExpandTokens { tid, input: e["input"].as_u64()? as u32 },
+            "expand_pair" => Event::ExpandPair { a_tid: tid, a_input: e["input"].as_u64()? as u32, b_tid: e["b_tid"].as_u64()? as u32, b_input: e["b_input"].as_u64()? as u32, sched: e["sched"].as_str()?.parse().ok()? },
             "perturb" => Event::Perturb { tid, n: e["n"].as_u64()? as u32, seed: e["seed"].as_str()?.parse().ok()? },
             "order" => Event::Order { tid, policy: e["policy"].as_u64()? as u8, seed: e["seed"].as_str()?.parse().ok()? },
             "order_at" => Event::OrderAt { tid, policy: e["policy"].as_u64()? as u8, seed: e["seed"].as_str()?.parse().ok()?, site: e["site"].as_str()?.to_string() },
@@ -1055,6 +1072,7 @@ fn cmd_run(cfg: &Cfg) -> i32 {
                 "distinct_history_prefix_lengths": total.prefix_lengths.len(),
                 "heap_perturbation_events": total.perturb_events,
                 "order_policy_events": total.order_policy_events,
+                "concurrent_pairs_executed": total.concurrent_pairs, "scheduler_switches_inside_pairs": total.scheduler_switches,
                 "ultra_marathon_worlds_65536_plus_expansions_in_one_process": n_ultra, "expansions_in_ultra_marathons": ultra_expansions, "marathon_hosts_ge250_expansions": total.marathon_hosts, "longest_history_expansions": total.longest_history,
                 "entropy_requests_served_by_shim": total.getrandom_calls, "entropy_bytes_served": total.getrandom_bytes,
             },
